@@ -149,13 +149,15 @@ var Catalogue = []Rule{
 		Apply:    func(bb *blockBuilder) { bb.sizeTo = 1000001 },
 		EdgeNeed: always,
 		Edge:     func(bb *blockBuilder) { bb.sizeTo = 1000000 }},
-	{Name: "too-many-sigops", Stage: "sanity", Need: always,
+	{Name: "too-many-sigops", Stage: "sanity", Need: always, // six of the operations sit in the coinbase signature script, the rest in an output
 		Apply: func(bb *blockBuilder) {
-			bb.txs[0].AddTxOut(&wire.TxOut{Value: 0, PkScript: manyOps(txscript.OP_CHECKSIG, 20001)})
+			bb.txs[0].TxIn[0].SignatureScript = append(bb.txs[0].TxIn[0].SignatureScript, manyOps(txscript.OP_CHECKSIG, 6)...)
+			bb.txs[0].AddTxOut(&wire.TxOut{Value: 0, PkScript: manyOps(txscript.OP_CHECKSIG, 20001-6)})
 		},
 		EdgeNeed: func(bb *blockBuilder) bool { return len(bb.txs) == 1 },
 		Edge: func(bb *blockBuilder) {
-			bb.txs[0].AddTxOut(&wire.TxOut{Value: 0, PkScript: manyOps(txscript.OP_CHECKSIG, 20000)})
+			bb.txs[0].TxIn[0].SignatureScript = append(bb.txs[0].TxIn[0].SignatureScript, manyOps(txscript.OP_CHECKSIG, 6)...)
+			bb.txs[0].AddTxOut(&wire.TxOut{Value: 0, PkScript: manyOps(txscript.OP_CHECKSIG, 20000-6)})
 		}},
 
 	// ---- context: checks against the parent chain before the block is stored
